@@ -6,4 +6,4 @@ import "verif/sim/sim"
 
 // Without the instrumented scratch copy there are no lock hooks; C13 refuses to run.
 func installLockHooks(k *sim.Kernel) bool { return false }
-func removeLockHooks()                  {}
+func removeLockHooks()                    {}
